@@ -4380,7 +4380,15 @@ async fn handle_connected_state_no_dtls(
             inner: inner.clone(),
         };
         // For RTP/SRTP, we pass false as is_client, but it doesn't matter as start_dtls handles it
-        match pc_temp.start_dtls(false).await {
+        let started = pc_temp.start_dtls(false).await;
+        if *inner.peer_state.borrow() == PeerConnectionState::Closed {
+            // close() ran before or while the transport was starting (also when the start
+            // failed half-way): what the start wired up came after close() had swept.
+            drop(started);
+            inner.release_resources();
+            return false;
+        }
+        match started {
             Err(e) => {
                 debug!("Transport start failed: {}", e);
                 let _ = inner.disconnect_reason.send_if_modified(|cur| {
@@ -4398,7 +4406,10 @@ async fn handle_connected_state_no_dtls(
             }
             Ok(mut rtcp_loop) => {
                 if !inner.set_peer_state(PeerConnectionState::Connected) {
-                    // close() ran while the transport was starting: stay Closed, stop driving.
+                    // close() ran while the transport was starting: stay Closed, stop driving,
+                    // and release what this start wired up after close() had swept.
+                    drop(rtcp_loop);
+                    inner.release_resources();
                     return false;
                 }
                 let grace = inner.config.ice_disconnect_grace;
@@ -4495,7 +4506,15 @@ async fn handle_connected_state(
                     inner: inner.clone(),
                 };
 
-                match pc_temp.start_dtls(is_client).await {
+                let started = pc_temp.start_dtls(is_client).await;
+                if *inner.peer_state.borrow() == PeerConnectionState::Closed {
+                    // close() ran before or while DTLS was starting (also when the start failed
+                    // half-way): what the start wired up came after close() had swept.
+                    drop(started);
+                    inner.release_resources();
+                    return false;
+                }
+                match started {
                     Err(e) => {
                         debug!("DTLS start failed: {}", e);
                         let _ = inner.disconnect_reason.send_if_modified(|cur| {
@@ -4513,7 +4532,10 @@ async fn handle_connected_state(
                     }
                     Ok(mut rtcp_loop) => {
                         if !inner.set_peer_state(PeerConnectionState::Connected) {
-                            // close() ran while DTLS was starting: stay Closed, stop driving.
+                            // close() ran while DTLS was starting: stay Closed, stop driving,
+                            // and release what this start wired up after close() had swept.
+                            drop(rtcp_loop);
+                            inner.release_resources();
                             return false;
                         }
 
@@ -5845,6 +5867,16 @@ impl PeerConnectionInner {
         let _ = self.ice_connection_state.send(IceConnectionState::Closed);
         let _ = self.ice_gathering_state.send(IceGatheringState::Complete);
 
+        self.release_resources();
+    }
+
+    /// The release half of `close_with_reason`: stop the media loops, clear the RTP
+    /// listeners, close SCTP / data channels / DTLS, stop every ICE transport. Every step
+    /// is idempotent. Also run by the driving loops when they find the connection Closed
+    /// right after a transport start: whatever that start wired up (receiver / sender
+    /// loops, listeners) came after close() had already swept and would otherwise stay
+    /// alive for as long as the application holds its handle.
+    fn release_resources(&self) {
         // Clean up all tracks to prevent audio bleeding into new connections
         {
             let transceivers = self.transceivers.lock();
